@@ -44,6 +44,8 @@ pub fn cases(tier: Tier) -> Vec<Case> {
     v.push(Case { big_value: false, fsync_fault: true, mmap_fault: false, writers: 1, readers: if q { 1 } else { 2 }, liveness: false, num_pages: 64, bound: if q { 2 } else { 3 } });
     v.push(Case { big_value: false, fsync_fault: true, mmap_fault: false, writers: 2, readers: 1, liveness: false, num_pages: 64, bound: if q { 1 } else { 2 } });
     v.push(Case { big_value: true, fsync_fault: false, mmap_fault: false, writers: 2, readers: 1, liveness: false, num_pages: 4, bound: if q { 0 } else { 1 } });
+    // (a reader open while the 20 MiB commit grows the file)
+    v.push(Case { big_value: true, fsync_fault: false, mmap_fault: false, writers: 1, readers: 1, liveness: false, num_pages: 4, bound: 2 });
     if !q {
         v.push(Case { big_value: false, fsync_fault: false, mmap_fault: false, writers: 3, readers: 1, liveness: false, num_pages: 4, bound: 2 });
         v.push(Case { big_value: false, fsync_fault: false, mmap_fault: false, writers: 2, readers: 2, liveness: false, num_pages: 4, bound: 2 });
